@@ -82,18 +82,19 @@ class Stats:
         self.cross_disagree = []
         self.wit = 0          # reachability / witness queries (satisfiable())
         self.wit_sat = 0
+        self.feas_unknown = 0  # branch-feasibility queries without an answer (branch then explored as if feasible)
         self.shapes = set()
 
     def merge(self, o):
-        for k in ("paths", "feas_queries", "t_feas", "obl", "unsat", "sat", "unknown", "t_obl", "wit", "wit_sat", "cross", "cross_agree", "cross_unknown"):
-            setattr(self, k, getattr(self, k) + getattr(o, k))
+        for k in ("paths", "feas_queries", "t_feas", "obl", "unsat", "sat", "unknown", "t_obl", "wit", "wit_sat", "cross", "cross_agree", "cross_unknown", "feas_unknown"):
+            setattr(self, k, getattr(self, k, 0) + getattr(o, k, 0))
         self.cross_disagree += o.cross_disagree
         self.shapes |= o.shapes
 
     def as_dict(self):
         return dict(paths=self.paths, feasibility_queries=self.feas_queries,
                     obligations=self.obl, unsat=self.unsat, sat=self.sat, unknown=self.unknown,
-                    witness_queries=self.wit, witnesses_found=self.wit_sat,
+                    witness_queries=self.wit, witnesses_found=self.wit_sat, feasibility_unknown_explored_as_feasible=self.feas_unknown,
                     cvc5_cross_checked=self.cross, cvc5_agree=self.cross_agree, cvc5_no_answer=self.cross_unknown,
                     cvc5_disagree=len(self.cross_disagree),
                     distinct_query_shapes=len(self.shapes),
@@ -154,7 +155,7 @@ class Explorer:
             self._synced_ids.append(p)   # the term itself: keeps its ast id alive
         self._synced = len(self.pc)
 
-    def _check(self, *extra):
+    def _check(self, *extra, unknown_ok=False):
         STATS.feas_queries += 1
         t = time.time()
         if not self._base_added:
@@ -169,6 +170,11 @@ class Explorer:
         self.solver.pop()
         STATS.t_feas += time.time() - t
         if r == z3.unknown:
+            if unknown_ok:
+                # a branch whose feasibility the solver cannot decide in time is explored as if feasible: obligations on an
+                # infeasible path are vacuous, and a counterexample still needs a model of the whole path condition
+                STATS.feas_unknown += 1
+                return True
             raise Unsupported("feasibility query unknown")
         return r == z3.sat
 
@@ -209,9 +215,9 @@ class Explorer:
             if has_fp(c) and not self.fp_feasibility:
                 return [True, False]
             o = []
-            if self._check(c):
+            if self._check(c, unknown_ok=True):
                 o.append(True)
-            if self._check(z3.Not(c)):
+            if self._check(z3.Not(c), unknown_ok=True):
                 o.append(False)
             return o
         d = self._decide(opts)
